@@ -3,6 +3,7 @@ package rules
 import (
 	"fmt"
 	"go/token"
+	"go/types"
 	"regexp"
 	"sort"
 	"strings"
@@ -13,7 +14,7 @@ import (
 )
 
 func c04(c *core.Ctx) map[string]interface{} {
-	c.Explanation = "Static check of the structural preconditions of decode(encode(x)) = x for the aligned-PER codec (C04). Decided: (R0.nilglobal) as for C03; (R4.parser) both directions obtain every field's constraints from the one tag parser applied to the `aper` tag (no second parser, no hand-built constraint record), and ngap.Encoder/ngap.Decoder pass the same top-level constraint string; (R4.dispatch = R3.tag) open-type alternatives are selected by a referenceFieldValue that is unique within its type and equal to the IE id / procedure code, reference fields precede the open type, Present constants equal positions, CHOICE bounds are the same tag on both sides by construction; (R4.acyclic) the type graph reachable from NGAPPDU has no cycle (decoding recursion is bounded by the schema); (R3.clone) mirrored primitives agree where they are clones: constrained-whole-number guard chains, octets-of-range and bit-width loops of INTEGER, length-range guards, SEQUENCE OF size guards, CHOICE index range; (R4.len) the length determinant decoder accepts exactly the X.691 10.9 forms the encoder emits (bit provenance of both octets, fragment counts 1..4); (R4.seqof) SEQUENCE OF: the lower bound is added to the decoded count exactly on the constrained branches where the encoder subtracted it. NOT decided: value equality after a round trip for every value (arithmetic of the primitives), acceptance of encodings produced by other encoders beyond these structural facts. (components) the rule set of C03 is run as part of this check: decode(encode(x)) = x needs a correct encoder."
+	c.Explanation = "Static check of the structural preconditions of decode(encode(x)) = x for the aligned-PER codec (C04). Decided: (R0.nilglobal) as for C03; (R4.parser) both directions obtain every field's constraints from the one tag parser applied to the `aper` tag (no second parser, no hand-built constraint record), and ngap.Encoder/ngap.Decoder pass the same top-level constraint string; (R4.dispatch = R3.tag) open-type alternatives are selected by a referenceFieldValue that is unique within its type and equal to the IE id / procedure code, reference fields precede the open type, Present constants equal positions, CHOICE bounds are the same tag on both sides by construction; (R4.acyclic) the type graph reachable from NGAPPDU has no cycle (decoding recursion is bounded by the schema); (R3.clone) mirrored primitives agree where they are clones: constrained-whole-number guard chains, octets-of-range and bit-width loops of INTEGER, length-range guards, SEQUENCE OF size guards, CHOICE index range; (R4.len) the length determinant decoder accepts exactly the X.691 10.9 forms the encoder emits (bit provenance of both octets, fragment counts 1..4); (R4.seqof) SEQUENCE OF: the lower bound is added to the decoded count exactly on the constrained branches where the encoder subtracted it. (R4.frag) in the fragment loops of parseOctetString/parseBitString the string collected so far is only ever extended, so a string sent in several fragments (16K units or more) comes back whole. NOT decided: value equality after a round trip for every value (arithmetic of the primitives), acceptance of encodings produced by other encoders beyond these structural facts. (components) the rule set of C03 is run as part of this check: decode(encode(x)) = x needs a correct encoder."
 	c.Assumptions = []string{"reflect.StructTag.Get returns the tag text the schema model reads"}
 	r0nilglobal(c, ngapEntries(c)...)
 	s := buildSchema(c)
@@ -23,6 +24,7 @@ func c04(c *core.Ctx) map[string]interface{} {
 	r3clone(c)
 	r4len(c)
 	r4seqof(c)
+	r4frag(c)
 	include(c, "C03")
 	return map[string]interface{}{"ngap_types": len(s.Types)}
 }
@@ -586,4 +588,113 @@ func splitPhi(s string) []string {
 		}
 	}
 	return append(out, in[start:])
+}
+
+// ---------------------------------------------------------------- R4.frag
+// Fragmented strings (X.691 10.9.3.8): a string of 16K units or more arrives as a
+// sequence of fragments, each with its own length determinant. The decoder's
+// fragment loop must therefore *extend* what it has collected on every iteration:
+// the loop-carried string is only ever replaced by append(itself, fragment...),
+// and the bit count by itself + fragment length. An assignment inside the loop that
+// does not contain the previous value drops the fragments read so far.
+func r4frag(c *core.Ctx) {
+	const R = "R4.frag"
+	c.Rule(R, "parseOctetString / parseBitString: inside the fragment loop the collected string is only extended (append(acc, …), count += n), never replaced")
+	for _, name := range []string{"perBitData.parseOctetString", "perBitData.parseBitString"} {
+		fn := mustFunc(c, pAper, name)
+		p := core.NewPather(fn)
+		calls := core.CallsTo(fn, pAper+".perBitData.parseLength")
+		if len(calls) != 1 {
+			c.SoftUndecided("%s: expected one parseLength call (the fragment loop), found %d", name, len(calls))
+			continue
+		}
+		lb := calls[0].Block()
+		// the loop: blocks that reach the parseLength block again
+		inLoop := func(b *ssa.BasicBlock) bool { return b == lb && core.Reaches(lb, lb) || (core.Reaches(lb, b) && core.Reaches(b, lb)) }
+		if !core.Reaches(lb, lb) {
+			c.Fail(R, "aper."+name+":loop", calls[0].Pos(), "the length determinant is read once only: a fragmented string (16K units or more) is cut after its first fragment")
+			continue
+		}
+		n := 0
+		check := func(key string, pos token.Pos, acc string, val ssa.Value) {
+			n++
+			v := val
+			ok := false
+			desc := p.Path(v)
+			switch x := v.(type) {
+			case *ssa.Call:
+				if core.CalleeName(&x.Call) == "builtin.append" && p.Path(x.Call.Args[0]) == acc {
+					ok = true
+				}
+			case *ssa.BinOp:
+				if x.Op == token.ADD && (p.Path(x.X) == acc || p.Path(x.Y) == acc) {
+					ok = true
+				}
+			}
+			c.Check(ok, R, key, pos, "extends "+acc, "inside the fragment loop %s is replaced by %s, which does not contain what was collected from earlier fragments", acc, clip(desc))
+		}
+		for _, b := range fn.Blocks {
+			if !inLoop(b) {
+				continue
+			}
+			for _, in := range b.Instrs {
+				switch x := in.(type) {
+				case *ssa.Phi:
+					// loop-carried accumulator of string type at the loop head
+					if _, isSlice := x.Type().Underlying().(*types.Slice); !isSlice {
+						continue
+					}
+					header := false
+					for _, pr := range b.Preds {
+						if !inLoop(pr) {
+							header = true
+						}
+					}
+					if !header {
+						continue // an inner merge, reached through the header phi's back edge
+					}
+					for i, e := range x.Edges {
+						pred := b.Preds[i]
+						if !inLoop(pred) {
+							continue // entry edge
+						}
+						var alts []ssa.Value
+						var flat func(v ssa.Value, d int)
+						flat = func(v ssa.Value, d int) {
+							if ph, isPhi := v.(*ssa.Phi); isPhi && ph != x && d < 4 {
+								for _, e2 := range ph.Edges {
+									flat(e2, d+1)
+								}
+								return
+							}
+							alts = append(alts, v)
+						}
+						flat(e, 0)
+						for k, a := range alts {
+							if a == ssa.Value(x) {
+								continue // unchanged on that path
+							}
+							check(fmt.Sprintf("aper.%s:%s:back-edge#%d.%d", name, p.Path(x), i, k), x.Pos(), p.Path(x), a)
+						}
+					}
+				case *ssa.Store:
+					fa, isFA := x.Addr.(*ssa.FieldAddr)
+					if !isFA {
+						continue
+					}
+					if _, isLocal := fa.X.(*ssa.Alloc); !isLocal {
+						continue
+					}
+					acc := p.Path(fa)
+					switch fa.Type().(*types.Pointer).Elem().Underlying().(type) {
+					case *types.Slice, *types.Basic:
+						check(fmt.Sprintf("aper.%s:%s", name, acc), x.Pos(), acc, x.Val)
+					}
+				}
+			}
+		}
+		if n == 0 {
+			c.SoftUndecided("%s: no accumulator found in the fragment loop", name)
+		}
+	}
 }
